@@ -163,6 +163,7 @@ def damage(text, specs):
     groups = residue_groups(lines)
     poly = polymer_groups(groups)
     drop = set()
+    add_after = {}
     for idx, how in specs:
         if not poly:
             break
@@ -181,11 +182,46 @@ def damage(text, specs):
             for l, nm in zip(g["lines"], names):
                 if nm == tgt:
                     drop.add(id(l))
+        elif how == "altloc":
+            # two alternate locations for the first side-chain atom (or CA)
+            tgt = next((l for l, nm in zip(g["lines"], names) if nm not in BACKBONE), g["lines"][0])
+            x, y, z = _xyz(tgt)
+            a = tgt[:16] + "A" + tgt[17:]
+            b = _set_xyz(tgt[:16] + "B" + tgt[17:], x + 0.3, y - 0.2, z + 0.1)
+            drop.add(id(tgt))
+            add_after[id(tgt)] = a + "\n" + b
+        elif how == "icode":
+            for l in g["lines"]:
+                drop.add(id(l))
+                add_after[id(l)] = l[:26] + "A" + l[27:]
+        elif how == "add_oxt":
+            # a carboxylate oxygen in the middle of a chain (pdb2pqr then splits the chain)
+            pos = {nm: _xyz(l) for l, nm in zip(g["lines"], names)}
+            if "OXT" not in pos and all(k in pos for k in ("C", "CA", "O")):
+                c, ca, o = pos["C"], pos["CA"], pos["O"]
+
+                def unit(v):
+                    n = math.sqrt(sum(x * x for x in v)) or 1.0
+                    return [x / n for x in v]
+
+                vca = unit([ca[i] - c[i] for i in range(3)])
+                vo = unit([o[i] - c[i] for i in range(3)])
+                d = unit([-(vca[i] + vo[i]) for i in range(3)])
+                oline = [l for l, nm in zip(g["lines"], names) if nm == "O"][0]
+                new = _set_xyz(oline[:12] + " OXT" + oline[16:],
+                               c[0] + 1.25 * d[0], c[1] + 1.25 * d[1], c[2] + 1.25 * d[2])
+                add_after[id(oline)] = new
         elif how == "drop_hydrogens":
             for l, nm in zip(g["lines"], names):
                 if nm.startswith("H") or (len(nm) > 1 and nm[0].isdigit() and nm[1] == "H"):
                     drop.add(id(l))
-    return "\n".join(l for l in lines if id(l) not in drop) + "\n"
+    out = []
+    for l in lines:
+        if id(l) not in drop:
+            out.append(l)
+        if id(l) in add_after:
+            out.append(add_after[id(l)])
+    return "\n".join(out) + "\n"
 
 
 def rename(text, specs):
